@@ -35,7 +35,7 @@ def hAllPaths : List String → String → Res
     let h := hOfT t
     let spec := if h ≤ 11 then
         verdictEq (showNats ((storedPaths t h).filter fun p => frm ≤ p ∧ p < to)) impl
-      else "na"
+      else "big"
     some (showNats (allPaths t frm to), spec)
   | _, _ => none
 
@@ -46,7 +46,7 @@ def hDecode : List String → String → Res
     let spec := if h ≤ 11 then
         verdictEq (showNats ((preorder t h 0 []).filterMap fun n =>
           if bitAt bm (preIdx t 0 n) then some (encPath h n) else none)) impl
-      else "na"
+      else "big"
     some (showNats (decode t bm), spec)
   | _, _ => none
 
